@@ -1,4 +1,5 @@
 import CC.Model.Prims
+import CC.Model.World
 import CC.Spec.Cover
 import CC.Model.Sym
 import CC.Model.Mac
@@ -8,7 +9,10 @@ import CC.Model.Wire
 One operation per input line, one canonical output line per input line. The Rust harness
 executes the same lines on the real implementation and the outputs are compared. Glue only:
 handle tables, hex, canonical printing. No theorem is about this file; it only *calls* the model
-functions the theorems are about. -/
+functions the theorems are about. The operations on a master key (edits, update, rekey, prune, key
+generation, refresh) take their new state from `World.step` — the very transition function of the
+reachable-world theorems — so what the correspondence check compares with the implementation is
+that state machine. -/
 
 namespace CC.Drv
 open CC
@@ -236,16 +240,19 @@ def matrixStr (st : St) : String :=
   "mx " ++ String.intercalate ";" rows
 
 /-- run an edit on the structure of master key slot `i` -/
-def editStruct (st : St) (ms : String) (f : Struct → Except Err Struct) : St × String :=
+def editStruct (st : St) (ms : String) (e : Edit) : St × String :=
   match handle 'M' ms with
   | none => (st, "bad-op")
   | some i =>
     match getSlot st.msks i with
     | none => (st, "err NoSuchHandle")
     | some m =>
-      match f m.structure_ with
-      | .error e => (st, errLine e)
-      | .ok s' => ({ st with msks := setSlot st.msks i (some { m with structure_ := s' }) }, "ok " ++ structStr s')
+      -- the state after the operation is the one of the world machine
+      let w' := World.step ⟨m, st.rng⟩ (.edit e)
+      let st' := { st with msks := setSlot st.msks i (some w'.msk), rng := w'.rng }
+      match m.structure_.apply e with
+      | .error err => (st', errLine err)
+      | .ok s' => (st', "ok " ++ structStr s')
 
 def mpkOut (st : St) (k : Nat) (m : Msk) : St × String :=
   let mpk := m.mpk
@@ -275,11 +282,14 @@ def step (st : St) (line : String) : St × String :=
     match handle 'M' ms, handle 'K' ks with
     | some i, some k =>
       let (m, n) := setup st.rng
-      -- `Covercrypt::setup`: update with the rights of the empty structure
+      -- `Covercrypt::setup`: update with the rights of the empty structure; the resulting state is the
+      -- initial world of the reachable-world theorems
+      let w0 := World.init st.rng
       match updateMsk m m.structure_.omega n with
       | (.error e, _, n') => ({ st with rng := n' }, errLine e)
-      | (.ok _, m', n') =>
-        let st := { st with rng := n', msks := setSlot st.msks i (some m') }
+      | (.ok _, _, _) =>
+        let m' := w0.msk
+        let st := { st with rng := w0.rng, msks := setSlot st.msks i (some m') }
         let (st, s) := mpkOut st k m'
         let (nm, ms) := mskStr st.nm m'
         ({ st with nm := nm }, "ok " ++ ms ++ " | " ++ s)
@@ -287,26 +297,26 @@ def step (st : St) (line : String) : St × String :=
   | ["add_dim", ms, kind, d] =>
     match strOfHex d with
     | none => (st, "bad-hex")
-    | some d => editStruct st ms (·.addDimension d (kind == "h"))
+    | some d => editStruct st ms (.addDim d (kind == "h"))
   | ["del_dim", ms, d] =>
     match strOfHex d with
     | none => (st, "bad-hex")
-    | some d => editStruct st ms (·.delDimension d)
+    | some d => editStruct st ms (.delDim d)
   | ["add_attr", ms, d, a, hint, after] =>
     match strOfHex d, strOfHex a, (if after == "-" then some none else (strOfHex after).map some) with
-    | some d, some a, some af => editStruct st ms (·.addAttribute d a (hint == "h") af)
+    | some d, some a, some af => editStruct st ms (.addAttr d a (hint == "h") af)
     | _, _, _ => (st, "bad-hex")
   | ["del_attr", ms, d, a] =>
     match strOfHex d, strOfHex a with
-    | some d, some a => editStruct st ms (·.delAttribute d a)
+    | some d, some a => editStruct st ms (.delAttr d a)
     | _, _ => (st, "bad-hex")
   | ["rename_attr", ms, d, a, b] =>
     match strOfHex d, strOfHex a, strOfHex b with
-    | some d, some a, some b => editStruct st ms (·.renameAttribute d a b)
+    | some d, some a, some b => editStruct st ms (.rename d a b)
     | _, _, _ => (st, "bad-hex")
   | ["disable_attr", ms, d, a] =>
     match strOfHex d, strOfHex a with
-    | some d, some a => editStruct st ms (·.disableAttribute d a)
+    | some d, some a => editStruct st ms (.disable d a)
     | _, _ => (st, "bad-hex")
   | ["update", ms, ks] =>
     match handle 'M' ms, handle 'K' ks with
@@ -314,8 +324,10 @@ def step (st : St) (line : String) : St × String :=
       match getSlot st.msks i with
       | none => (st, "err NoSuchHandle")
       | some m =>
-        let (res, m', n') := updateMsk m m.structure_.omega st.rng
-        let st := { st with rng := n', msks := setSlot st.msks i (some m') }
+        let (res, _, _) := updateMsk m m.structure_.omega st.rng
+        let w' := World.step ⟨m, st.rng⟩ .update
+        let m' := w'.msk
+        let st := { st with rng := w'.rng, msks := setSlot st.msks i (some m') }
         let (nm, ms) := mskStr st.nm m'
         let st := { st with nm := nm }
         match res with
@@ -328,11 +340,16 @@ def step (st : St) (line : String) : St × String :=
       match getSlot st.msks i with
       | none => (st, "err NoSuchHandle")
       | some m =>
-        match (policyOf p).bind m.structure_.uskRights with
+        match policyOf p with
+        | .error e => let (nm, ms) := mskStr st.nm m; ({ st with nm := nm }, errLine e ++ " " ++ ms)
+        | .ok ap =>
+        match m.structure_.uskRights ap with
         | .error e => let (nm, ms) := mskStr st.nm m; ({ st with nm := nm }, errLine e ++ " " ++ ms)
         | .ok rights =>
-          let (res, m', n') := rekey m rights st.rng
-          let st := { st with rng := n', msks := setSlot st.msks i (some m') }
+          let (res, _, _) := rekey m rights st.rng
+          let w' := World.step ⟨m, st.rng⟩ (.rekey ap)
+          let m' := w'.msk
+          let st := { st with rng := w'.rng, msks := setSlot st.msks i (some m') }
           let (nm, ms) := mskStr st.nm m'
           let st := { st with nm := nm }
           match res with
@@ -345,11 +362,15 @@ def step (st : St) (line : String) : St × String :=
       match getSlot st.msks i with
       | none => (st, "err NoSuchHandle")
       | some m =>
-        match (policyOf p).bind m.structure_.uskRights with
+        match policyOf p with
         | .error e => let (nm, ms) := mskStr st.nm m; ({ st with nm := nm }, errLine e ++ " " ++ ms)
-        | .ok rights =>
-          let m' := prune m rights
-          let st := { st with msks := setSlot st.msks i (some m') }
+        | .ok ap =>
+        match m.structure_.uskRights ap with
+        | .error e => let (nm, ms) := mskStr st.nm m; ({ st with nm := nm }, errLine e ++ " " ++ ms)
+        | .ok _ =>
+          let w' := World.step ⟨m, st.rng⟩ (.prune ap)
+          let m' := w'.msk
+          let st := { st with rng := w'.rng, msks := setSlot st.msks i (some m') }
           let (nm, ms) := mskStr st.nm m'
           let st := { st with nm := nm }
           let (st, s) := mpkOut st k m'; (st, "ok " ++ ms ++ " | " ++ s)
@@ -360,11 +381,16 @@ def step (st : St) (line : String) : St × String :=
       match getSlot st.msks i with
       | none => (st, "err NoSuchHandle")
       | some m =>
-        match (policyOf p).bind m.structure_.uskRights with
+        match policyOf p with
+        | .error e => let (nm, ms) := mskStr st.nm m; ({ st with nm := nm }, errLine e ++ " " ++ ms)
+        | .ok ap =>
+        match m.structure_.uskRights ap with
         | .error e => let (nm, ms) := mskStr st.nm m; ({ st with nm := nm }, errLine e ++ " " ++ ms)
         | .ok rights =>
-          let (res, m', n') := uskKeygen m rights st.rng
-          let st := { st with rng := n', msks := setSlot st.msks i (some m') }
+          let (res, _, _) := uskKeygen m rights st.rng
+          let w' := World.step ⟨m, st.rng⟩ (.keygen ap)
+          let m' := w'.msk
+          let st := { st with rng := w'.rng, msks := setSlot st.msks i (some m') }
           let (nm, ms) := mskStr st.nm m'
           let st := { st with nm := nm }
           match res with
@@ -378,8 +404,10 @@ def step (st : St) (line : String) : St × String :=
     | some i, some j, some j' =>
       match getSlot st.msks i, getSlot st.usks j with
       | some m, some u =>
-        let (res, m', u', n') := refresh m u (keep == "1") st.rng
-        let st := { st with rng := n', msks := setSlot st.msks i (some m'), usks := setSlot st.usks j' (some u') }
+        let (res, _, u', _) := refresh m u (keep == "1") st.rng
+        let w' := World.step ⟨m, st.rng⟩ (.refresh u (keep == "1"))
+        let m' := w'.msk
+        let st := { st with rng := w'.rng, msks := setSlot st.msks i (some m'), usks := setSlot st.usks j' (some u') }
         let (nm, ms) := mskStr st.nm m'
         let (nm, s) := uskStr nm u'
         let st := { st with nm := nm }
